@@ -128,10 +128,42 @@ def build_cshim(name, sources):
     return so
 
 
-def scratch_dir(prefix="drfwork-"):
-    d = tempfile.mkdtemp(prefix=prefix)
-    atexit.register(shutil.rmtree, d, True)
-    return d
+_scratch_root = None
+
+
+def scratch_root():
+    """one scratch directory per check process tree (created by the parent, removed at its exit)"""
+    global _scratch_root
+    if _scratch_root is None:
+        r = os.environ.get("DRF_SCRATCH_ROOT")
+        if r and os.path.isdir(r):
+            _scratch_root = r
+        else:
+            _scratch_root = tempfile.mkdtemp(prefix="drfwork-")
+            os.environ["DRF_SCRATCH_ROOT"] = _scratch_root
+            atexit.register(shutil.rmtree, _scratch_root, True)
+    return _scratch_root
+
+
+def scratch_dir(prefix="w-"):
+    return tempfile.mkdtemp(prefix=prefix, dir=scratch_root())
+
+
+def set_current(obj):
+    """remember the case being run on the implementation, so that a crash of the implementation
+    (abort, segfault) or an unexpected exception can be reported with a concrete replay input"""
+    try:
+        with open(os.path.join(scratch_root(), "current.json"), "w") as f:
+            json.dump(obj, f, default=str)
+    except OSError:
+        pass
+
+
+def get_current():
+    try:
+        return json.load(open(os.path.join(scratch_root(), "current.json")))
+    except (OSError, ValueError):
+        return None
 
 
 # --------------------------------------------------------------------------- Coq build
